@@ -1969,10 +1969,12 @@ class ElseIf(OR):
                             output.update(right_value)
                             if self._is_false_ and not self._yield_when_false_:
                                 continue
+                            # a result that is not yielded again (a duplicate on the variables that are still needed)
+                            # is a result of the right branch all the same: later lookups are served from the cache
+                            self.update_cache(right_value, self.right_cache)
                             if not self._is_false_:
                                 if self._is_duplicate_output_(output):
                                     continue
-                            self.update_cache(right_value, self.right_cache)
                             yield output
                     finally:
                         self.right._eval_parent_ = right_prev
